@@ -3,6 +3,7 @@ package yaml
 import (
 	"bytes"
 	"errors"
+	"strconv"
 	"strings"
 
 	"github.com/goccy/go-yaml"
@@ -51,6 +52,15 @@ func Update(f *ast.File, path *yaml.Path, value interface{}) error {
 	b, err := yaml.Marshal(value)
 	if err != nil {
 		return err
+	}
+
+	// go-yaml leaves some strings unquoted that don't read back as the same string,
+	// e.g. `-`, `- x`, `? x`, `...`, `.inf` or a leading tab. Those are written double quoted.
+	if s, ok := value.(string); ok {
+		var back interface{}
+		if err := yaml.Unmarshal(b, &back); err != nil || back != interface{}(s) {
+			b = []byte(strconv.Quote(s))
+		}
 	}
 
 	// empty documents (e.g. after a trailing `---`) have no body to replace,
